@@ -57,6 +57,10 @@ ENS_ONLY_RT
 PROP(C05) __CPROVER_ensures(g_eval_n <= 2 && (g_eval_n >= 1 ==> g_eval_node[0] == this->_base_MemberExpression._exp) && (g_eval_n == 2 ==> g_eval_node[1] == g_args[0]))
 /* the argument is only read: owned storage comes out bit-for-bit and content-for-content as it went in */
 ENS_FRAME2
+/* a receiver that is a constant of the program (a string literal in the source) is only read: the result is a new
+ * temporary and the constant keeps its content, whatever is appended */
+PROP(C05, C09) __CPROVER_ensures((g_eval_n == 2 && g_isconst_n >= 1 && g_isconst_all && V_IS(RCV, LITERAL)) ==> (V_SAME(O1, A1) && (FRAME_STR(O1, A1, 0))))
+PROP(C05, C09) __CPROVER_ensures((OK && g_eval_n == 2 && g_isconst_n >= 1 && g_isconst_all && V_IS(RCV, LITERAL)) ==> (RET != O1 && RET != O2 && V_IS(RET, LITERAL) && !V_LVALUE(RET)))
 /* a non-null table receiver stays uniform and grows by at most one element */
 PROP(C09) __CPROVER_ensures((g_eval_n == 2 && IS_TABLE(RCV)) ==> (ELEM_INV(COLL) && (TAB_SIZE(COLL) == g_eval_size[0] || (OK && TAB_SIZE(COLL) == g_eval_size[0] + 1))))
 ;
